@@ -29,6 +29,10 @@ def main():
     if "--round2" in args:  # second round of sub-agents: /tmp/seed2-<ID>/_out, filed as <ID>-3, <ID>-4
         args.remove("--round2")
         prefix, offset = "/tmp/seed2-", 2
+    round3 = "--round3" in args  # third round, organised by code area: /tmp/seed3-<S>/_out, filed as <S>-<n>; the property comes from metaN.json
+    if round3:
+        args.remove("--round3")
+        prefix = "/tmp/seed3-"
     for pid in args:
         src = f"{prefix}{pid}/_out"
         for n in (1, 2, 3):
@@ -72,10 +76,16 @@ def main():
                         meta = json.load(open(mp))
                     except Exception:
                         meta = {"raw": open(mp).read()}
+                prop = pid
+                if round3:
+                    prop = str(meta.get("property", "")).strip().upper()[:3]
+                    if not (len(prop) == 3 and prop[0] == "C" and prop[1:].isdigit()):
+                        print(name, "REJECTED: meta names no property:", meta.get("property"))
+                        continue
                 meta.update(
                     {
-                        "property": pid,
-                        "origin": "written by an independent sub-agent that saw only the property text and a scratch worktree" + (" (second round: it was also told the one-line summaries of the first-round changes for this property, to avoid repeating them)" if offset else ""),
+                        "property": prop,
+                        "origin": "written by an independent sub-agent that saw only the property text and a scratch worktree" + (" (second round: it was also told the one-line summaries of the first-round changes for this property, to avoid repeating them)" if offset else "") + (" (third round: the agent was given a code area and all twenty property statements, and the summaries of earlier changes in that area to avoid)" if round3 else ""),
                         "confirmed": {
                             "demo_on_clean_tree": f"exit {rc0}: {out0.strip()[-200:]}",
                             "test_suite_with_patch": outt.strip(),
